@@ -71,7 +71,8 @@ def env_box(names):
     keys = [n for n in names if n in vals]
     for combo in itertools.product(*[vals[k] for k in keys]):
         e = dict(S.BASE_ENV)
-        e.update({"aa": 11, "zz": 12, "B": 13})
+        e.update({"aa": 11, "zz": 12, "B": 13, "x2": 7, "x10": 17, "v9": 5, "v10": 3,
+                  "a_11": 19, "a_2": 23, "Z1": 29, "a1": 31, "n007": 37, "n1": 41})
         e.update(zip(keys, combo))
         out.append(e)
     return out[:24]
@@ -342,6 +343,11 @@ def expr_for(draw, frag):
 @st.composite
 def compile_case(draw):
     ex = draw(expr_for(FRAG_COMPILE))
+    if draw(st.integers(0, 3)) == 0:
+        # names whose string order and "natural" order differ, used asymmetrically
+        a_, b_ = draw(st.sampled_from((("x2", "x10"), ("v9", "v10"), ("a_11", "a_2"),
+                                       ("Z1", "a1"), ("n007", "n1"))))
+        ex = ["Sum", [ex, ["Product", [["Const", "int", 100], ["Var", a_]]], ["Var", b_]]]
     names = sorted({s[1] for s in subspecs(ex) if s[0] == "Var"} - {"math"})
     extra = draw(st.lists(st.sampled_from(("aa", "zz", "B")), unique=True, max_size=1))
     pool = names + extra
